@@ -74,6 +74,9 @@ CLAIMS = {
     "C37": ("other", "API-layer panic discipline over type-checked MIR: Result::unwrap/expect inventory (R7a); inventory of macro panics, Option::unwrap, indexing and panicking sequence-API calls with dominance patterns — must-pass-through ensure_transaction_open before self.transaction.unwrap(), typestate (only self-consuming methods empty a transaction handle's inner slot), control dependence of hydrate's sequence edits on a len() comparison (R7d); provenance of caller-supplied ExId parameters into exid_to_obj/exid_to_opid only (R7e)",
             "Every enumerated site in automerge.rs, autocommit.rs, transaction/*, hydrate*, autoserde, patches, marks and automerge-c's unwraps is discharged by a pattern, reviewed (tables/api_panic_sites.tsv, tables/unwrap_result.tsv) or reported; a new unwrap of AutomergeError, a mutating AutoCommit method that skips ensure_transaction_open, a &mut-self method that empties a transaction handle, an unguarded sequence edit in hydrate or direct use of ExId fields is reported.",
             "Level 'other': inventory with reviewed rows. Not decided: panics in the op-set queries, sequence tree and text_diff reached with valid ids. Fired on the pinned tree: hydrate::Value::apply_patches hit todo!() on library-produced Mark patches (fix: c9d192d6a) and sequence-tree asserts on stale / out-of-range patches (fix: 9c5d779aa); OpId counters above u32::MAX from caller-supplied ids (fix: 179c483cf, decided under C30/C15).", "DESIGN.md §3 C37"),
+    "C17": ("other", "taint analysis over type-checked MIR: sources = integers read by the LEB128 parsers, struct fields filled from them (computed per run), values yielded by hexane decoders; sinks = allocation sizes (with_capacity, vec![x; n], reserve, resize, repeat_n), ends of iterated integer ranges; sanitisers = min, len, take_n/split, try_reserve; interprocedural through 'parameter reaches a sink' summaries; plus an inventory of element-by-element materialisations of run-length columns over wire bytes in the parse layer",
+            "Every allocation-size site and every iterated integer range in the automerge crate is examined; a wire-controlled size or bound without a sanitiser, and every column materialisation over wire bytes, is reported unless reviewed (tables/c17_sizes.tsv) or a listed known finding with a concrete input and measured cost.",
+            "Level 'other'. Decides which wire numbers can size an allocation or a loop, not the polynomial bound itself nor the cost of merge / index algorithms. Fired on the pinned tree: a 9-byte Bloom filter cost 1 GB and 4 s per membership test (fix: e11ece4c1); bundle dep / pred counts used as Vec capacities, 'capacity overflow' panic (fix: cb9773955). Known findings (not small repairs: the format lets a run header announce 2^63 values): change-metadata columns, the bundle ID_CTR_INVERSE column and the bundle dep / pred loops materialise such runs; 120-140 byte inputs cost 256 MB - 2 GB and 1 - 38 s.", "DESIGN.md §3 C17"),
     "C03": ("other", "the error-after-mutation analysis of C06 restricted to the editing calls C03 lists, plus agreement of the op set's Action->ObjType table with the make-actions the encoder writes",
             "For put, put_object, insert, insert_object, delete, increment, splice, splice_text, mark, unmark, split_block, join_block: every (mutation, later error) pair in the functions they reach is discharged, reviewed or a known finding; and every object kind put_object can create is one the op set registers.",
             "Decides only the last sentence of C03 (an invalid call changes nothing) and the object-registration clause; the sequential effect itself is runtime-valued. Known finding: ObjType::Table objects are never registered (put_object returns an unusable id).", "DESIGN.md §3 C03"),
